@@ -59,11 +59,15 @@ Definition obs_ok (fl : bool) (o : obs) : Prop :=
 Definition Inv (fl : bool) (c : cfg) : Prop :=
   Forall (task_ok fl) (c_tasks c) /\ Forall (obs_ok fl) (c_trace c) /\ c_assert c = 0.
 
+Definition is_scope_ev (o : obs) : bool :=
+  match o with OEnter _ _ _ | OExit _ _ _ => true | _ => false end.
+
 Definition eff_ok (fl : bool) (cur : option pid) (e : effect) : Prop :=
   Forall (instr_ok fl cur) (e_code e)
   /\ (forall p body, e_push e = Some (p, body) -> Forall (instr_ok fl (Some p)) body)
   /\ Forall (obs_ok fl) (e_emit e)
-  /\ Forall (fun code => forall cur', Forall (instr_ok fl cur') code) (e_spawn e).
+  /\ Forall (fun code => forall cur', Forall (instr_ok fl cur') code) (e_spawn e)
+  /\ Forall (fun o => is_scope_ev o = false) (e_emit e).
 
 Lemma stack_of_scope : forall base sv p body frs,
   stack_of base (mk_frame (Some p) sv body :: frs) = stack_of base frs ++ [p].
@@ -204,7 +208,7 @@ Lemma apply_effect_inv : forall fl c t tk fr frs e,
   eff_ok fl (top (t_ctx tk)) e ->
   Inv fl (apply_effect c t tk fr frs e).
 Proof.
-  intros fl c t tk fr frs e (HT & HO & HA) Hctx Hfr (Hcode & Hpush & Hemit & Hspawn).
+  intros fl c t tk fr frs e (HT & HO & HA) Hctx Hfr (Hcode & Hpush & Hemit & Hspawn & _).
   cbn in Hfr. destruct Hfr as (Hcur & Hsaved & Hrest).
   unfold Inv, apply_effect; cbn [c_tasks c_trace c_assert]. repeat split; auto.
   - rewrite Forall_map. eapply Forall_impl; [intros a Ha; apply wake_task_ok; exact Ha|].
@@ -229,7 +233,9 @@ Proof.
         -- cbn [frames_ok]. repeat split; auto.
     + rewrite Forall_map. eapply Forall_impl; [|exact Hspawn].
       intros code Hc. apply new_task_ok; auto.
-  - apply Forall_app; split; auto. apply Forall_rev; auto.
+  - assert (Forall (obs_ok fl) (rev (e_emit e) ++ c_trace c))
+      by (apply Forall_app; split; auto; apply Forall_rev; auto).
+    destruct (e_push e) as [[p body]|]; auto. constructor; cbn; auto.
 Qed.
 
 Lemma micro_inv : forall fl defs c t, Inv fl c -> Inv fl (micro fl defs c t).
@@ -248,8 +254,10 @@ Proof.
     + assert (Hst : stack_of (t_base tk) (fr :: frs) = stack_of (t_base tk) frs ++ [p]).
       { unfold stack_of; cbn; rewrite Es; cbn. rewrite app_assoc; reflexivity. }
       rewrite Hctx, Hst, top_is_app_last.
-      unfold Inv; cbn; repeat split; auto. apply Forall_upd; auto.
-      unfold task_ok; cbn. rewrite removelast_last. split; auto.
+      unfold Inv; cbn; repeat split; auto.
+      * apply Forall_upd; auto.
+        unfold task_ok; cbn. rewrite removelast_last. split; auto.
+      * constructor; cbn; auto.
     + unfold Inv; cbn; repeat split; auto. apply Forall_upd; auto.
       unfold task_ok; cbn. split; auto.
       rewrite Hctx. unfold stack_of; cbn; rewrite Es; reflexivity.
@@ -356,7 +364,8 @@ Theorem scope_exit_restores_entry_stack : forall fl defs fuel s t tk fr frs p,
   nth_error (c_tasks c) t = Some tk ->
   t_frames tk = fr :: frs -> f_code fr = [] -> f_scope fr = Some p ->
   t_ctx tk = f_saved fr ++ [p]
-  /\ micro fl defs c t = c <| c_tasks := upd t (tk <| t_frames := frs |> <| t_ctx := f_saved fr |>) (c_tasks c) |>.
+  /\ micro fl defs c t = c <| c_tasks := upd t (tk <| t_frames := frs |> <| t_ctx := f_saved fr |>) (c_tasks c) |>
+                           <| c_trace ::= cons (OExit t p (f_saved fr)) |>.
 Proof.
   intros fl defs fuel s t tk fr frs p c Ht Hf Hc Hs.
   destruct (run_inv fl defs fuel s) as (HT & _ & _). fold c in HT.
@@ -508,4 +517,235 @@ Lemma current_all_kinds_when_hooks_scoped : forall defs fuel s who k cur,
 Proof.
   intros defs fuel s who k cur HIn. eapply current_is_running_process; eauto.
   unfold must_hold. apply orb_true_r.
+Qed.
+
+(* ================================================================== scope events are well bracketed *)
+(* the scope frames of a task with the stacks recorded at their entry, innermost first *)
+Fixpoint frame_entries (frs : list frame) : list (pid * list pid) :=
+  match frs with
+  | [] => []
+  | fr :: r => match f_scope fr with Some p => (p, f_saved fr) :: frame_entries r | None => frame_entries r end
+  end.
+
+Fixpoint proj_t (t : tid) (open : list (tid * (pid * list pid))) : list (pid * list pid) :=
+  match open with
+  | [] => []
+  | (t', e) :: r => if Nat.eqb t' t then e :: proj_t t r else proj_t t r
+  end.
+
+Definition entries_of (c : cfg) (t : tid) : list (pid * list pid) :=
+  match nth_error (c_tasks c) t with Some tk => frame_entries (t_frames tk) | None => [] end.
+
+(* the unmatched entries of the log are exactly the scope frames that exist *)
+Definition BInv (c : cfg) : Prop :=
+  exists open, run_open [] (rev (c_trace c)) = Some open /\ forall t, proj_t t open = entries_of c t.
+
+Lemma run_open_app : forall l o ev,
+  run_open o (l ++ [ev]) = match run_open o l with Some o' => step_open o' ev | None => None end.
+Proof.
+  induction l as [|a l IH]; intros o ev; cbn.
+  - destruct (step_open o ev); reflexivity.
+  - destruct (step_open o a); auto.
+Qed.
+
+Lemma run_open_plain : forall l o, Forall (fun x => is_scope_ev x = false) l -> run_open o l = Some o.
+Proof.
+  induction l as [|a l IH]; intros o H; cbn; auto.
+  inversion H as [|? ? Ha Hl]; subst. destruct a; cbn in *; try discriminate; auto.
+Qed.
+
+Lemma run_open_app_plain : forall l l' o,
+  Forall (fun x => is_scope_ev x = false) l' -> run_open o (l ++ l') = run_open o l.
+Proof.
+  induction l as [|a l IH]; intros l' o H; cbn.
+  - rewrite run_open_plain; auto.
+  - destruct (step_open o a); auto.
+Qed.
+
+Lemma list_nat_eqb_refl : forall l, list_nat_eqb l l = true.
+Proof. induction l; cbn; auto. rewrite Nat.eqb_refl; auto. Qed.
+
+Lemma take_first_spec : forall t open e rest,
+  proj_t t open = e :: rest ->
+  exists open', take_first t open = Some (e, open')
+                /\ proj_t t open' = rest
+                /\ forall t', t' <> t -> proj_t t' open' = proj_t t' open.
+Proof.
+  induction open as [|[t0 e0] r IH]; intros e rest H; cbn in *; try discriminate.
+  destruct (Nat.eqb t0 t) eqn:E.
+  - inversion H; subst. exists r. repeat split; auto.
+    intros t' Hne. apply Nat.eqb_eq in E; subst.
+    destruct (Nat.eqb t t') eqn:E'; auto. apply Nat.eqb_eq in E'. congruence.
+  - destruct (IH _ _ H) as (open' & Htf & Hp & Ho). rewrite Htf.
+    exists ((t0, e0) :: open'). repeat split; cbn.
+    + rewrite E; auto.
+    + intros t' Hne. rewrite (Ho _ Hne). reflexivity.
+Qed.
+
+Lemma entries_upd_status : forall c t tk s t',
+  nth_error (c_tasks c) t = Some tk ->
+  entries_of (c <| c_tasks := upd t (tk <| t_status := s |>) (c_tasks c) |>) t' = entries_of c t'.
+Proof.
+  intros c t tk s t' Ht; unfold entries_of; cbn.
+  destruct (Nat.eq_dec t t') as [->|Hne].
+  - erewrite nth_error_upd_same; eauto. rewrite Ht. reflexivity.
+  - rewrite nth_error_upd_other; auto.
+Qed.
+
+Lemma entries_upd : forall (tasks : list task) t tk tk' t',
+  nth_error tasks t = Some tk ->
+  match nth_error (upd t tk' tasks) t' with Some x => frame_entries (t_frames x) | None => [] end
+  = if Nat.eqb t' t then frame_entries (t_frames tk')
+    else match nth_error tasks t' with Some x => frame_entries (t_frames x) | None => [] end.
+Proof.
+  intros tasks t tk tk' t' Ht.
+  destruct (Nat.eqb t' t) eqn:E.
+  - apply Nat.eqb_eq in E; subst. erewrite nth_error_upd_same; eauto.
+  - apply Nat.eqb_neq in E. rewrite nth_error_upd_other; auto.
+Qed.
+
+Lemma entries_apply_effect : forall c t tk fr frs e t',
+  nth_error (c_tasks c) t = Some tk ->
+  entries_of (apply_effect c t tk fr frs e) t'
+  = if Nat.eqb t' t
+    then match e_push e with
+         | Some (p, _) => (p, t_ctx tk) :: frame_entries (fr :: frs)
+         | None => frame_entries (fr :: frs)
+         end
+    else entries_of c t'.
+Proof.
+  intros c t tk fr frs e t' Ht. unfold entries_of, apply_effect; cbn [c_tasks].
+  rewrite nth_error_map.
+  assert (Hlen : t < length (c_tasks c)) by (apply nth_error_Some; congruence).
+  destruct (Nat.lt_ge_cases t' (length (c_tasks c))) as [Hlt|Hge].
+  - rewrite nth_error_app1 by (rewrite length_upd; auto).
+    destruct (Nat.eqb t' t) eqn:E.
+    + apply Nat.eqb_eq in E; subst. erewrite nth_error_upd_same; eauto. cbn [option_map].
+      destruct (wake_task_fields (e_wake e)
+                  (mk_task match e_push e with None => t_ctx tk | Some (p, _) => t_ctx tk ++ [p] end (t_base tk)
+                     match e_push e with
+                     | None => mk_frame (f_scope fr) (f_saved fr) (e_code e ++ (if e_unwind e then [] else f_code fr)) :: frs
+                     | Some (p, body) => mk_frame (Some p) (t_ctx tk) body
+                         :: mk_frame (f_scope fr) (f_saved fr) (e_code e ++ (if e_unwind e then [] else f_code fr)) :: frs
+                     end (e_stat e))) as (_ & _ & ->).
+      cbn [t_frames]. destruct (e_push e) as [[p body]|]; cbn; reflexivity.
+    + apply Nat.eqb_neq in E. rewrite nth_error_upd_other; auto.
+      destruct (nth_error (c_tasks c) t') as [x|]; cbn; auto.
+      destruct (wake_task_fields (e_wake e) x) as (_ & _ & ->). reflexivity.
+  - assert (E : Nat.eqb t' t = false) by (apply Nat.eqb_neq; lia). rewrite E.
+    rewrite nth_error_app2 by (rewrite length_upd; auto).
+    rewrite nth_error_map.
+    assert (Hn : nth_error (c_tasks c) t' = None) by (apply nth_error_None; auto). rewrite Hn.
+    destruct (nth_error (e_spawn e) (t' - length (upd t _ (c_tasks c)))); cbn; auto.
+Qed.
+
+Lemma effect_emit_plain : forall fl defs ps n cur i,
+  instr_ok fl cur i -> Forall (fun o => is_scope_ev o = false) (e_emit (effect_of fl defs ps n cur i)).
+Proof. intros. apply (effect_of_ok fl defs ps n cur i H). Qed.
+
+Lemma micro_binv : forall fl defs c t, Inv fl c -> BInv c -> BInv (micro fl defs c t).
+Proof.
+  intros fl defs c t HI (open & Hrun & Hopen). pose proof HI as (HT & _ & _).
+  unfold micro. destruct (nth_error (c_tasks c) t) as [tk|] eqn:Et.
+  2: { exists open; split; auto. }
+  pose proof (Forall_nth_error _ _ _ _ _ HT Et) as (Hctx & Hfr).
+  assert (Hent : entries_of c t = frame_entries (t_frames tk)) by (unfold entries_of; rewrite Et; reflexivity).
+  destruct (t_frames tk) as [|fr frs] eqn:Ef.
+  { exists open; split; auto. intro t'. rewrite Hopen. symmetry. apply entries_upd_status; auto. }
+  destruct (f_code fr) as [|i code'] eqn:Ec.
+  - cbn in Hfr. destruct Hfr as (_ & Hsaved & _).
+    destruct (f_scope fr) as [p|] eqn:Es.
+    + assert (Hst : stack_of (t_base tk) (fr :: frs) = stack_of (t_base tk) frs ++ [p]).
+      { unfold stack_of; cbn; rewrite Es; cbn. rewrite app_assoc; reflexivity. }
+      rewrite Hctx, Hst, top_is_app_last, removelast_last, <- Hsaved.
+      assert (Hp : proj_t t open = (p, f_saved fr) :: frame_entries frs).
+      { rewrite Hopen, Hent. cbn. rewrite Es. reflexivity. }
+      destruct (take_first_spec _ _ _ _ Hp) as (open' & Htf & Hp' & Ho).
+      exists open'. split.
+      * cbn. rewrite run_open_app, Hrun. cbn. rewrite Htf, Nat.eqb_refl, list_nat_eqb_refl. reflexivity.
+      * intro t'. unfold entries_of; cbn. erewrite entries_upd; eauto.
+        destruct (Nat.eqb t' t) eqn:E.
+        -- apply Nat.eqb_eq in E; subst. cbn. exact Hp'.
+        -- apply Nat.eqb_neq in E. rewrite (Ho _ E). apply Hopen.
+    + exists open; split; auto. intro t'. unfold entries_of; cbn. erewrite entries_upd; eauto.
+      destruct (Nat.eqb t' t) eqn:E.
+      * apply Nat.eqb_eq in E; subst. cbn. rewrite Hopen, Hent. cbn. rewrite Es. reflexivity.
+      * apply Hopen.
+  - (* an instruction *)
+    cbn in Hfr. destruct Hfr as (Hcur & _ & _). rewrite Ec in Hcur. inversion Hcur as [|? ? Hi _]; subst.
+    set (e := effect_of fl defs (c_procs c) (length (c_tasks c)) (top (t_ctx tk)) i).
+    assert (Hplain : Forall (fun o => is_scope_ev o = false) (rev (e_emit e))).
+    { apply Forall_rev. apply effect_emit_plain. rewrite Hctx. exact Hi. }
+    assert (Hfe : frame_entries (mk_frame (f_scope fr) (f_saved fr) code' :: frs) = frame_entries (fr :: frs))
+      by reflexivity.
+    destruct (e_push e) as [[p body]|] eqn:Ep.
+    + exists ((t, (p, t_ctx tk)) :: open). split.
+      * unfold apply_effect; cbn [c_trace]. rewrite Ep. cbn [rev].
+        rewrite run_open_app. rewrite rev_app_distr, rev_involutive.
+        rewrite run_open_app_plain by (rewrite <- (rev_involutive (e_emit e)); apply Forall_rev; exact Hplain).
+        rewrite Hrun. reflexivity.
+      * intro t'. rewrite entries_apply_effect by auto. rewrite Ep, Hfe. cbn [proj_t].
+        destruct (Nat.eqb t t') eqn:E.
+        -- apply Nat.eqb_eq in E; subst. rewrite Nat.eqb_refl. rewrite Hopen, Hent. reflexivity.
+        -- rewrite Nat.eqb_sym, E. apply Hopen.
+    + exists open. split.
+      * unfold apply_effect; cbn [c_trace]. rewrite Ep.
+        rewrite rev_app_distr, rev_involutive.
+        rewrite run_open_app_plain by (rewrite <- (rev_involutive (e_emit e)); apply Forall_rev; exact Hplain).
+        exact Hrun.
+      * intro t'. rewrite entries_apply_effect by auto. rewrite Ep, Hfe.
+        destruct (Nat.eqb t' t) eqn:E.
+        -- apply Nat.eqb_eq in E; subst. rewrite Hopen, Hent. reflexivity.
+        -- apply Hopen.
+Qed.
+
+Lemma sched_step_binv : forall c it, BInv c -> BInv (sched_step c it).
+Proof.
+  intros c it (open & Hrun & Hopen).
+  assert (Hself : BInv c) by (exists open; auto).
+  destruct it as [t| |acts]; cbn.
+  - destruct (nth_error (c_tasks c) t) as [tk|] eqn:Et; auto.
+    destruct (t_status tk); auto.
+    exists open; split.
+    + cbn. rewrite run_open_app, Hrun. reflexivity.
+    + intro t'. rewrite Hopen. unfold entries_of; cbn. erewrite entries_upd; eauto.
+      destruct (Nat.eqb t' t) eqn:E; auto. apply Nat.eqb_eq in E; subst. rewrite Et. reflexivity.
+  - destruct (c_running c) as [|t r]; auto.
+    destruct (nth_error (c_tasks c) t) as [tk|] eqn:Et; auto.
+    destruct (t_status tk); auto.
+    destruct (nth_error (c_tasks c) child) as [tch|]; auto.
+    destruct (t_status tch); auto.
+    exists open; split.
+    + cbn. rewrite run_open_app, Hrun. reflexivity.
+    + intro t'. rewrite Hopen. unfold entries_of; cbn. erewrite entries_upd; eauto.
+      destruct (Nat.eqb t' t) eqn:E; auto. apply Nat.eqb_eq in E; subst. rewrite Et. reflexivity.
+  - destruct (c_running c); auto.
+    exists open; split.
+    + cbn. rewrite run_open_app, Hrun. reflexivity.
+    + intro t'. rewrite Hopen. unfold entries_of; cbn.
+      destruct (Nat.lt_ge_cases t' (length (c_tasks c))) as [Hlt|Hge].
+      * rewrite nth_error_app1; auto.
+      * rewrite nth_error_app2; auto.
+        assert (Hn : nth_error (c_tasks c) t' = None) by (apply nth_error_None; auto). rewrite Hn.
+        destruct (t' - length (c_tasks c)) as [|k]; cbn; auto. destruct k; reflexivity.
+Qed.
+
+Lemma drive_binv : forall fl defs fuel c s, Inv fl c -> BInv c -> BInv (fst (drive fl defs fuel c s)).
+Proof.
+  intros fl defs fuel; induction fuel as [|f IH]; intros c s HI HB; cbn; auto.
+  destruct (active c) as [t|].
+  - apply IH; [apply micro_inv | apply micro_binv]; auto.
+  - destruct s as [|it s']; cbn; auto.
+    apply IH; [apply sched_step_inv | apply sched_step_binv]; auto.
+Qed.
+
+(* In the chronological log of any run, the scope events of every task are well bracketed (an exit matches the
+   most recent unmatched entry of the same task, and it is for the same process), and every exit leaves exactly
+   the stack that the matching entry found. *)
+Theorem scope_events_bracketed : forall fl defs fuel s, bracketed (log_of (run fl defs fuel s)).
+Proof.
+  intros fl defs fuel s. unfold bracketed, log_of, run.
+  destruct (drive_binv fl defs fuel (init defs) s (init_inv fl defs)) as (open & Hrun & _).
+  - exists []. split; auto. intro t. unfold entries_of, init; cbn. destruct t; reflexivity.
+  - rewrite Hrun. discriminate.
 Qed.
